@@ -40,6 +40,7 @@ type input struct {
 	M      [][2]string `json:"m,omitempty"`
 	MM     []kvs       `json:"mm,omitempty"`
 	T      string      `json:"t,omitempty"`
+	E      int         `json:"e,omitempty"` // entry point of the float/complex direct oracle
 }
 
 var sTypes = []reflect.Type{reflect.TypeOf(int8(0)), reflect.TypeOf(int16(0)), reflect.TypeOf(int32(0)),
@@ -249,6 +250,8 @@ func run(raw json.RawMessage) driver.Result {
 	}
 	sg := coqfmt.Bool(in.Signed)
 	switch in.K {
+	case "flt":
+		return runFloat(in)
 	case "int":
 		out := parseScalar(in.Signed, in.W, in.S)
 		return driver.Result{
@@ -583,7 +586,9 @@ func gen(r *coqfmt.Rng, n int, tier string) []json.RawMessage {
 	for i := 0; i < n; i++ {
 		signed := r.Chance(1, 2)
 		w := r.Intn(5)
-		switch x := r.Intn(100); {
+		switch x := r.Intn(112); {
+		case x >= 100:
+			add(genFloatCase(r))
 		case x < 22:
 			add(input{K: "int", Signed: signed, W: w, S: genLiteral(r, signed, w)})
 		case x < 34:
@@ -658,7 +663,9 @@ func main() {
 			"random literals (non-trivial: parsed successfully); integer slices of size 0-20 through the flag helper (non-trivial: >=2 elements); " +
 			"strings from a grammar biased to the scanner's special runes, collections of size 0-20 through the real String() methods " +
 			"(non-trivial: >=2 members and at least one member containing a special rune); raw text through parse.String at 26 types " +
-			"(non-trivial: parsed successfully, length >= 3); distinct = distinct JSON inputs",
-		Gen: gen, Run: run, Corpus: sweep(),
+			"(non-trivial: parsed successfully, length >= 3); float32/float64/complex64/complex128 boundary sweep and random literals, " +
+			"scalar, slice element, map value, parse.Complex*, flag helper Set - DIRECT ORACLE against strconv at the target bit size, no model (non-trivial: accepted); " +
+			"distinct = distinct JSON inputs",
+		Gen: gen, Run: run, Corpus: append(sweep(), floatSweep()...),
 	})
 }
